@@ -705,7 +705,19 @@ class Engine:
                     return ("int", -a[1])
                 return ("ineg", a, ty_str(rv[3]))
             if op == "PtrMetadata":
-                return ("len", self.strip_ref_value(st, a))
+                tgt = self.strip_ref_value(st, a)
+                n = self.lens.get(tgt)
+                if n is None:
+                    n = seq_len(tgt, self.lens)
+                if n is None and tgt[0] == "vmap" and len(tgt) > 4:
+                    n = tgt[4]
+                if isinstance(n, int):
+                    return ("int", n)
+                if isinstance(n, str):
+                    return ("cparam", n)
+                if isinstance(n, tuple) and n and n[0] in ("cparam", "const"):
+                    return ("cparam", n[1])
+                return ("len", tgt)
             return ("unop", op, a)
         if k == "discr":
             v = self.read_place(st, fr, rv[1])
